@@ -163,6 +163,7 @@ func PeerExit(c io.Closer) {
 type C16SSHServer struct {
 	*Listener
 	cfg      *ssh.ServerConfig
+	opts     C16SSHOpts
 	Sessions chan *SSHSession
 }
 
@@ -181,6 +182,22 @@ func (d *detReader) Read(b []byte) (int, error) {
 
 // NewC16SSHServer starts a server on loopback with a fresh ed25519 host key derived from seed.
 func NewC16SSHServer(seed uint64) (*C16SSHServer, error) {
+	return NewC16SSHServerOpts(seed, C16SSHOpts{})
+}
+
+// C16SSHOpts selects how the server authenticates, which algorithms it offers and at which point
+// of the session set-up it refuses to go on.
+type C16SSHOpts struct {
+	Auth   string // "" / "password": password; "kbd": keyboard-interactive with two questions
+	Cipher string // when set the server offers only this cipher
+	Kex    string // when set the server offers only this key exchange
+	// Reject: "" none, "handshake" (drop the TCP connection on accept), "auth" (no credentials are
+	// good), "channel" (refuse the session channel), "pty", "shell", "subsystem" (refuse that request)
+	Reject string
+}
+
+// NewC16SSHServerOpts is NewC16SSHServer with options. The password is "p".
+func NewC16SSHServerOpts(seed uint64, o C16SSHOpts) (*C16SSHServer, error) {
 	_, priv, err := ed25519.GenerateKey(&detReader{s: seed})
 	if err != nil {
 		return nil, err
@@ -189,15 +206,39 @@ func NewC16SSHServer(seed uint64) (*C16SSHServer, error) {
 	if err != nil {
 		return nil, err
 	}
-	cfg := &ssh.ServerConfig{
-		PasswordCallback: func(ssh.ConnMetadata, []byte) (*ssh.Permissions, error) { return nil, nil },
+	cfg := &ssh.ServerConfig{}
+	good := func(pw string) error {
+		if o.Reject == "auth" || pw != "p" {
+			return errors.New("sim: bad credentials")
+		}
+		return nil
+	}
+	if o.Auth == "kbd" {
+		cfg.KeyboardInteractiveCallback = func(_ ssh.ConnMetadata, ask ssh.KeyboardInteractiveChallenge) (*ssh.Permissions, error) {
+			ans, err := ask("", "", []string{"Password: ", "Again: "}, []bool{false, false})
+			if err != nil {
+				return nil, err
+			}
+			if len(ans) != 2 || ans[0] != ans[1] {
+				return nil, errors.New("sim: bad answers")
+			}
+			return nil, good(ans[0])
+		}
+	} else {
+		cfg.PasswordCallback = func(_ ssh.ConnMetadata, pw []byte) (*ssh.Permissions, error) { return nil, good(string(pw)) }
+	}
+	if o.Cipher != "" {
+		cfg.Config.Ciphers = []string{o.Cipher}
+	}
+	if o.Kex != "" {
+		cfg.Config.KeyExchanges = []string{o.Kex}
 	}
 	cfg.AddHostKey(signer)
 	l, err := Listen()
 	if err != nil {
 		return nil, err
 	}
-	s := &C16SSHServer{Listener: l, cfg: cfg, Sessions: make(chan *SSHSession, 64)}
+	s := &C16SSHServer{Listener: l, cfg: cfg, opts: o, Sessions: make(chan *SSHSession, 64)}
 	go s.serve()
 	return s, nil
 }
@@ -213,6 +254,10 @@ func (s *C16SSHServer) serve() {
 }
 
 func (s *C16SSHServer) handle(c net.Conn) {
+	if s.opts.Reject == "handshake" {
+		_ = c.Close()
+		return
+	}
 	sc, chans, reqs, err := ssh.NewServerConn(c, s.cfg)
 	if err != nil {
 		_ = c.Close()
@@ -220,7 +265,7 @@ func (s *C16SSHServer) handle(c net.Conn) {
 	}
 	go ssh.DiscardRequests(reqs)
 	for nc := range chans {
-		if nc.ChannelType() != "session" {
+		if nc.ChannelType() != "session" || s.opts.Reject == "channel" {
 			_ = nc.Reject(ssh.UnknownChannelType, "only sessions")
 			continue
 		}
@@ -251,6 +296,12 @@ func (s *C16SSHServer) handle(c net.Conn) {
 							sess.Kind = "subsystem:" + string(r.Payload[4:4+n])
 							started, ok = true, true
 						}
+					}
+				}
+				if s.opts.Reject == r.Type || (s.opts.Reject == "pty" && r.Type == "pty-req") {
+					ok = false
+					if r.Type == "shell" || r.Type == "subsystem" {
+						started = false
 					}
 				}
 				if r.WantReply {
